@@ -880,7 +880,12 @@ class FLP(Spec):
         from rl4co.utils.ops import get_distance_matrix
         locs = t32(lat["locs"]) * float(cfg.get("scale", 1.0))
         B, n = locs.shape[:2]
-        return TensorDict({"locs": locs, "orig_distances": get_distance_matrix(locs),
+        D = get_distance_matrix(locs)
+        if lat.get("asym") is not None:
+            # direction-dependent travel costs (one-way / uphill): reset takes the matrix from the instance, so an
+            # asymmetric one is legal input; factors 1 + k/8 per ordered pair, zero diagonal kept
+            D = D * (1.0 + t32(lat["asym"]) / 8.0)
+        return TensorDict({"locs": locs, "orig_distances": D,
                            "distances": torch.full((B, n), math.sqrt(2.0)),
                            "chosen": torch.zeros(B, n, dtype=torch.bool),
                            "to_choose": torch.full((B,), cfg["k"], dtype=torch.long)}, batch_size=[B])
